@@ -131,6 +131,26 @@ void sim::engine_tools(RunCtx& cx) {
                 if (ref::duplicate_table_entries(root, q)) { in.bytes = ref::encode_preferred(root); in.kind = "valid-duplicate-table-entries"; cx.ctr->add("probe.input_with_duplicate_table_entries"); }
             } catch (std::exception&) {}
         }
+        // a quarter of the valid inputs come from a producer that leaves out the optional block-parameters index where it is 0
+        // (RFC 8618: absent means 0): such a block must still end up under parameters equal to its source's
+        if (in.kind.compare(0, 5, "valid") == 0 && !in.bytes.empty() && r.chance(1, 4)) {
+            try {
+                ref::Node root = ref::Decoder(in.bytes).parse_all();
+                unsigned dropped = 0;
+                for (ref::Node& blk : root.kids.at(2).kids)
+                    for (size_t i = 0; i + 1 < blk.kids.size(); i += 2) {
+                        if (!(blk.kids[i].is_uint() && blk.kids[i].arg == 0)) continue;
+                        ref::Node& bpre = blk.kids[i + 1];
+                        for (size_t j = 0; j + 1 < bpre.kids.size(); j += 2)
+                            if (bpre.kids[j].is_uint() && bpre.kids[j].arg == 1 && bpre.kids[j + 1].is_uint() && bpre.kids[j + 1].arg == 0) {
+                                bpre.kids.erase(bpre.kids.begin() + j, bpre.kids.begin() + j + 2);
+                                dropped++;
+                                break;
+                            }
+                    }
+                if (dropped) { in.bytes = ref::encode_preferred(root); in.kind += "-index-omitted"; cx.ctr->add("probe.input_with_omitted_parameters_index"); }
+            } catch (std::exception&) {}
+        }
         if (in.present && !in.bytes.empty() && in.kind.find("listed-twice") == std::string::npos) {
             try { in.rf = ref::Interp::file(in.bytes); in.parsed = true; } catch (std::exception&) { in.parsed = false; }
         }
